@@ -297,7 +297,7 @@ class DefGen:
             kinds += ["truefalse", "header-lists"]
         k = kinds[f.int(label + ".kind", len(kinds))]
         neg = f.flag(label + ".neg", 1, 3)
-        mt = [":is", ":contains", ":matches"][f.int(label + ".mt", 3)]
+        mt = [":is", ":contains", ":matches", ":regex"][f.weighted(label + ".mt", [3, 3, 3, 1])]
         tag = (":not" + mt[1:]) if neg else mt
         if k == "header":
             return (self.value(label + ".h"), tag, self.value(label + ".v"))
